@@ -121,6 +121,46 @@ template <class Ring> struct Run {
     }
 };
 
+// Modular<Log16>: elements are exponents of a generator; operands are given / printed as residues (init / convert)
+template <> struct Run<Modular<Log16> > {
+    typedef Modular<Log16> Ring;
+    typedef Ring::Element E;
+    static std::string go(const std::string& ps, const std::string& op, const Args& a) {
+        static std::unique_ptr<Ring> cur; static std::string curp;
+        if (op == "info") { std::ostringstream o; o << Ring::minCardinality() << " " << Ring::maxCardinality(); return o.str(); }
+        if (!cur || curp != ps) { cur.reset(new Ring((Ring::Residu_t) strtoul(ps.c_str(), 0, 10))); curp = ps; }
+        const Ring& F = *cur;
+        E x, y, z, r; F.init(x); F.init(y); F.init(z); F.init(r);
+        if (a.size() > 0) F.init(x, (int32_t) strtol(a[0].c_str(), 0, 10));
+        if (a.size() > 1) F.init(y, (int32_t) strtol(a[1].c_str(), 0, 10));
+        if (a.size() > 2) F.init(z, (int32_t) strtol(a[2].c_str(), 0, 10));
+        F.assign(r, F.mOne);
+        if (op == "add") F.add(r, x, y);
+        else if (op == "addin") { F.assign(r, x); F.addin(r, y); }
+        else if (op == "sub") F.sub(r, x, y);
+        else if (op == "subin") { F.assign(r, x); F.subin(r, y); }
+        else if (op == "mul") F.mul(r, x, y);
+        else if (op == "mulin") { F.assign(r, x); F.mulin(r, y); }
+        else if (op == "neg") F.neg(r, x);
+        else if (op == "negin") { F.assign(r, x); F.negin(r); }
+        else if (op == "inv") F.inv(r, x);
+        else if (op == "invin") { F.assign(r, x); F.invin(r); }
+        else if (op == "div") F.div(r, x, y);
+        else if (op == "divin") { F.assign(r, x); F.divin(r, y); }
+        else if (op == "axpy") F.axpy(r, x, y, z);
+        else if (op == "axpyin") { F.assign(r, z); F.axpyin(r, x, y); }
+        else if (op == "axmy") F.axmy(r, x, y, z);
+        else if (op == "axmyin") { F.assign(r, z); F.axmyin(r, x, y); }
+        else if (op == "maxpy") F.maxpy(r, x, y, z);
+        else if (op == "maxpyin") { F.assign(r, z); F.maxpyin(r, x, y); }
+        else if (op == "reduce1" || op == "reduce2") F.init(r, (int32_t) strtol(a[0].c_str(), 0, 10));   // no reduce(): init is the reduction
+        else if (op == "isUnit") return F.isUnit(x) ? "1" : "0";
+        else return "UNKNOWN-OP";
+        int32_t v; F.convert(v, r);
+        return std::to_string(v);
+    }
+};
+
 typedef std::string (*Fn)(const std::string&, const std::string&, const Args&);
 static std::map<std::string, Fn> table;
 #define REG(name, ...) table[name] = &Run<__VA_ARGS__ >::go
@@ -148,7 +188,8 @@ int main() {
     REG("bi32", ModularBalanced<int32_t>); REG("bi64", ModularBalanced<int64_t>);
     REG("bf", ModularBalanced<float>); REG("bd", ModularBalanced<double>);
     REG("ef", ModularExtended<float>); REG("ed", ModularExtended<double>);
-    REG("zz", Modular<Integer>);
+    REG("zz", Modular<Integer>); REG("log16", Modular<Log16>);
+    REG("ri7_7", Modular<RecInt::rint<7>, RecInt::rint<7> >);
     REG("ru6_6", Modular<RecInt::ruint<6>, RecInt::ruint<6> >); REG("ru6_7", Modular<RecInt::ruint<6>, RecInt::ruint<7> >);
     REG("ru7_7", Modular<RecInt::ruint<7>, RecInt::ruint<7> >); REG("ru7_8", Modular<RecInt::ruint<7>, RecInt::ruint<8> >);
     REG("ru8_8", Modular<RecInt::ruint<8>, RecInt::ruint<8> >); REG("ru8_9", Modular<RecInt::ruint<8>, RecInt::ruint<9> >);
